@@ -259,6 +259,9 @@ func VH_H_ClaimTask() {
 		q := k.req.ClaimTask
 		if m == "GET" {
 			vx.Assert(q.Id == vx.GinParamSent("id"), "C20:http-path-id-reaches-the-kernel-unaltered")
+			// the links handed out with a dispatched task: claiming through the link identifies the holder as
+			// "<task id>/<counter>" with the default lease, which is what the heartbeat link renews
+			vx.Assert(vx.And(q.Counter == vx.Atoi(vx.GinParamSent("counter")), q.ProcessId == q.Id+"/"+vx.Itoa(int64(q.Counter)), int64(q.Ttl) == 60000), "C07:http-claim-link-names-task-counter-and-holder")
 		} else {
 			b, _ := vx.GinBound("JSON", 0).(*claimTaskBody)
 			vx.Assert(b != nil && q.Id == b.Id && q.Counter == b.Counter && q.ProcessId == b.ProcessId && q.Ttl == b.Ttl, "C20:http-request-fields-copied")
@@ -280,4 +283,19 @@ func VH_H_CompleteTask() {
 		}
 	}
 }
-func VH_H_HeartbeatTasks() { s, k := vhServer(); s.heartbeatTasks(vx.GinContext(vhMethod())); vhCheck(k, t_api.HeartbeatTasks) }
+func VH_H_HeartbeatTasks() {
+	s, k := vhServer()
+	m := vhMethod()
+	s.heartbeatTasks(vx.GinContext(m))
+	vhCheck(k, t_api.HeartbeatTasks)
+	if k.calls == 1 {
+		q := k.req.HeartbeatTasks
+		if m == "GET" {
+			// the heartbeat link renews the lease of exactly the holder the claim link registered
+			vx.Assert(q.ProcessId == vx.GinParamSent("id")+"/"+vx.Itoa(int64(vx.Atoi(vx.GinParamSent("counter")))), "C07:http-heartbeat-link-renews-the-claim-links-holder")
+		} else {
+			b, _ := vx.GinBound("JSON", 0).(*heartbeatTaskBody)
+			vx.Assert(b != nil && q.ProcessId == b.ProcessId, "C20:http-request-fields-copied")
+		}
+	}
+}
